@@ -185,6 +185,9 @@ func c16Check(env *h.Env, c *c16Case) error {
 				conflict = true
 				if !contains(refSet, a) {
 					if x := after[a]; x == nil || !h.SameEntry(x, b, false) {
+						if chainSet, _, cherr := refFor(true); cherr == nil && contains(chainSet, a) {
+							return env.Known("patternmatcher-parent-results-divergence", "include=%q exclude=%q always-replace: copy replaced the old entry %q, which the naive reference does not select but the unpruned MatchesUsingParentResults chain model does", c.Include, c.Exclude, a)
+						}
 						return fmt.Errorf("Copy failed (%v) and the old entry %q, which the patterns do not select, was removed or modified", cerr, a)
 					}
 				}
